@@ -311,10 +311,50 @@ def _define():
                 self.greeks = [get_greeks(Decimal("0.9"), Decimal(1), Decimal("1.2")), get_greeks(Decimal("1.1"), Decimal(1), Decimal("1.2"))]
             super().on_bar(snapshot)
 
-    return {"trigctor": TrigCtor, "greeks": Greeks, "pricewriter": PriceWriter, "ocap": OptCapBuyer, "lender": Lender, "riskeditor": RiskEditor, "sig2": Signal, "sig3": Signal3, "buyer": Buyer, "keep": Keep, "idle": Idle, "trader": Trader, "trig": Triggered, "obuy": OptBuyer, "obuy2": OptBuyer2, "oquery": OptQuery}
+    class PriceA(Strategy):
+        """opens a range given by PRICE bounds on the first pool (the bounds are converted to that pool's usable ticks)"""
+        which = 0
+
+        def __init__(self, tag):
+            super().__init__()
+            self.tag = tag
+
+        def on_bar(self, snapshot):
+            if snapshot.row_id == 1:
+                m = list(self.broker.markets.values())[self.which if self.which == 0 else -1]
+                m.add_liquidity(Decimal("1850.5"), Decimal("2290.75"), Decimal("0.4"), Decimal(800))
+
+        def finalize(self):
+            _dump(self)
+
+    class PriceB(PriceA):
+        """the same price bounds on the LAST pool of the configuration (another fee tier, another tick spacing, where there are two pools)"""
+        which = 1
+
+    class Scheduled(Strategy):
+        """every strategy of a sweep is handed the same module-level schedule (one list object) for its AtTimesTrigger"""
+
+        def __init__(self, tag):
+            super().__init__()
+            self.tag = tag
+            from demeter.strategy.trigger import AtTimesTrigger
+
+            self.triggers.append(AtTimesTrigger(SCHEDULE, self.work))
+
+        def work(self, snapshot):
+            m = list(self.broker.markets.values())[0]
+            m.add_liquidity_by_tick(199300 + 100 * snapshot.row_id, 200800, Decimal("0.1"), Decimal(200))
+
+        def finalize(self):
+            _dump(self)
+
+    return {"price-a": PriceA, "price-b": PriceB, "sched": Scheduled, "trigctor": TrigCtor, "greeks": Greeks, "pricewriter": PriceWriter, "ocap": OptCapBuyer, "lender": Lender, "riskeditor": RiskEditor, "sig2": Signal, "sig3": Signal3, "buyer": Buyer, "keep": Keep, "idle": Idle, "trader": Trader, "trig": Triggered, "obuy": OptBuyer, "obuy2": OptBuyer2, "oquery": OptQuery}
 
 
 STRATEGY_CLASSES = None
+import datetime as _dt
+
+SCHEDULE = [_dt.datetime(2024, 1, 1, 0, 1), _dt.datetime(2024, 1, 1, 0, 3), _dt.datetime(2024, 1, 1, 0, 4)]  # whole minutes, ascending
 
 
 def classes():
@@ -547,12 +587,28 @@ _SOLO = {}
 
 
 def solo(mix, kind):
+    """The reference: the strategy run alone, in a process in which nothing else has run - a forked child of the calling process (main() computes all references
+    in the parent before any worker exists, so the child's memory image has never seen another strategy)."""
     key = (mix, kind)
     if key not in _SOLO:
-        res, err, _, _ = managed(mix, [kind], 1, None)
-        if err or f"{kind}#0" not in res:
+        r, w = os.pipe()
+        pid = os.fork()
+        if pid == 0:
+            try:
+                os.close(r)
+                res, err, _, _ = managed(mix, [kind], 1, None)
+                with os.fdopen(w, "wb") as f:
+                    pickle.dump((res.get(f"{kind}#0"), err), f)
+            finally:
+                os._exit(0)
+        os.close(w)
+        with os.fdopen(r, "rb") as f:
+            data = f.read()
+        os.waitpid(pid, 0)
+        one, err = pickle.loads(data) if data else (None, "the reference run died")
+        if err or one is None:
             raise RuntimeError(f"solo run of {kind} failed: {err}")
-        _SOLO[key] = res[f"{kind}#0"]
+        _SOLO[key] = one
     return _SOLO[key]
 
 
@@ -690,12 +746,19 @@ def main(run: Run):
         jobs.append((run.seed, "one-pool", s, run.thorough))
     for s in [("greeks", "trader"), ("greeks", "keep", "trig"), ("greeks",)]:
         jobs.append((run.seed, "one-pool", s, run.thorough))
+    # price bounds converted to ticks on pools of different fee tiers (tick spacing 10 / 60); one schedule object handed to every strategy of a sweep
+    for s in [("price-a", "price-b"), ("price-b", "price-a"), ("price-b", "idle", "price-a"), ("price-b",), ("price-a",)]:
+        jobs.append((run.seed, "two-pools", s, run.thorough))
+    for s in [("sched", "sched"), ("sched", "idle", "sched"), ("sched",)]:
+        jobs.append((run.seed, "one-pool", s, run.thorough))
     for mix in mixes:
         for s in sels:
             if mix == "two-pools" and not run.thorough and len(s) == 3 and s[0] not in ("keep", "trig"):
                 continue
             jobs.append((run.seed, mix, tuple(s), run.thorough))
         jobs.append((run.seed, mix, big, run.thorough))
+    for mix, kinds_ in sorted({(j[1], k) for j in jobs for k in j[2]}):
+        solo(mix, kinds_)  # every reference is computed here, each in its own pristine child; the workers inherit them
     jobs = run.rotate(jobs)
     for r in pmap(work, jobs):
         run.merge(r)
